@@ -372,8 +372,8 @@ func filesUnit(c *core.Ctx) {
 
 func init() {
 	core.Register(&core.Check{
-		ID:   "C19",
-		Rule: "bounded-exhaustive token strings: CSV inputs = all strings of up to 6 (7 thorough) tokens over {a, 1, comma, quote, newline, 'x,1', a date} fed to ReadFromReader (and, up to 4 tokens, through a file to ReadFromFile) for three row shapes with and without header; JSON inputs = all strings of up to 4 (5 thorough) tokens over {[ ] { } , 1 \"a\" : null <valid record>} fed to JSONToChan and, as HTTP bodies with statuses {200,204,301,400,401,404,429,500}, to TiingoRepository.GetSince through a synchronous fake transport; unreadable/missing files. Every input is one controlled execution with an independent reader: a panic in the reader goroutine, a reader that never closes its stream or a leaked goroutine is a violation, delivered rows must equal the rows of the well-formed prefix according to a reference reader built on encoding/csv / encoding/json; non-200 statuses and missing files must yield errors. states = inputs, non-trivial = inputs whose well-formed prefix has at least one record",
+		ID:     "C19",
+		Rule:   "bounded-exhaustive token strings: CSV inputs = all strings of up to 6 (7 thorough) tokens over {a, 1, comma, quote, newline, 'x,1', a date} fed to ReadFromReader (and, up to 4 tokens, through a file to ReadFromFile) for three row shapes with and without header; JSON inputs = all strings of up to 4 (5 thorough) tokens over {[ ] { } , 1 \"a\" : null <valid record>} fed to JSONToChan and, as HTTP bodies with statuses {200,204,301,400,401,404,429,500}, to TiingoRepository.GetSince through a synchronous fake transport; unreadable/missing files. Every input is one controlled execution with an independent reader: a panic in the reader goroutine, a reader that never closes its stream or a leaked goroutine is a violation, delivered rows must equal the rows of the well-formed prefix according to a reference reader built on encoding/csv / encoding/json; non-200 statuses and missing files must yield errors. states = inputs, non-trivial = inputs whose well-formed prefix has at least one record",
 		Assume: []string{"byte strings are token strings over the stated alphabets", "the reference reader uses the standard library tokenisers themselves, so the check does not out-demand encoding/csv or encoding/json"},
 		Units: func(tier string) []core.Unit {
 			cl, jl := 6, 4
